@@ -51,7 +51,7 @@ def _apply(root: str, v: V) -> Optional[Dict[str, str]]:
 def _baseline(pid: str, root: str):
     pack = importlib.import_module(f'sa.packs.{pid.lower()}')
     res = core.run_pack(pid, 'quick', pack.check, proj=Project(root))
-    if res['error']:
+    if res['error'] or res.get('floor_error'):
         return None
     return {o.key for o in res['ctx'].obligations if o.status == 'fail'}
 
@@ -73,6 +73,8 @@ def _run_variant(args):
         return (v.name, v.kind, 'error', res['error'][:300])
     fails = {o.key: o for o in res['ctx'].obligations if o.status == 'fail'}
     new = [k for k in fails if k not in base_fail]
+    if res.get('floor_error') and not new:
+        return (v.name, v.kind, 'error', f'analysis error instead of a verdict: {res["floor_error"][:300]}')
     gone = [k for k in base_fail if k not in fails]
     if v.kind == 'break':
         hit = [k for k in new if (v.expect is None or k.startswith(v.expect))]
